@@ -220,17 +220,20 @@ func containsWildcards(name string) bool {
 // dedupePaths expects input as a sorted list
 func dedupePaths(in []string) []string {
 	out := make([]string, 0, len(in))
-	var last string
+next:
 	for _, s := range in {
 		// if one of the paths is root there is no filter
 		if s == "." {
 			return nil
 		}
-		if strings.HasPrefix(s, last+"/") {
-			continue
+		// in byte order a sibling such as "a-b" sorts between "a" and "a/b":
+		// compare with every kept element, not only with the previous one
+		for _, kept := range out {
+			if strings.HasPrefix(s, kept+"/") {
+				continue next
+			}
 		}
 		out = append(out, s)
-		last = s
 	}
 	return out
 }
